@@ -74,6 +74,8 @@ func (c *Ctx) check(cond bool, fn, construct, pos, okWhy, badWhy string) {
 
 var rules = map[string]*Rule{}
 
+var rolesFile string
+
 func register(r *Rule) {
 	if _, dup := rules[r.ID]; dup {
 		panic("duplicate rule " + r.ID)
@@ -149,7 +151,21 @@ func main() {
 	ruleFlag := flag.String("rules", "", "debug: comma-separated rule ids to run instead of a property's")
 	dump := flag.Bool("dump", false, "debug: print every obligation")
 	mutDir := flag.String("mutants", "", "run the mutant catalogue in this directory against -repo (development / thorough tier)")
+	dumpRolesTo := flag.String("dumproles", "", "development: write the role fingerprints of -repo's functions to this file")
 	flag.Parse()
+	rolesFile = filepath.Join(*out, "checker", "roles.json")
+	if *dumpRolesTo != "" {
+		prog, err := loadProgramRaw(*repo, quickConfigs[0])
+		if err != nil {
+			fmt.Fprintln(os.Stderr, err)
+			os.Exit(2)
+		}
+		if err := dumpRoles(prog, *dumpRolesTo); err != nil {
+			fmt.Fprintln(os.Stderr, err)
+			os.Exit(2)
+		}
+		return
+	}
 
 	if *mutDir != "" {
 		os.Exit(mutantsMain(*mutDir, *repo, *prop))
@@ -190,6 +206,9 @@ func main() {
 			if *dump || o.Verdict != Discharged {
 				fmt.Printf("%-10s %-11s %s  [%s] %s\n", o.Rule, o.Verdict, o.Key, o.Pos, o.Why)
 			}
+		}
+		if notes, _ := run.progInfo["renamed_roles_resolved_by_fingerprint"].([]string); len(notes) > 0 {
+			fmt.Printf("roles: %s\n", strings.Join(notes, "; "))
 		}
 		fmt.Printf("rules=%s obligations=%d wall=%.1fs\n", *ruleFlag, len(run.all), time.Since(start).Seconds())
 		return
@@ -279,6 +298,7 @@ func analyse(repo, tier string, props []string, ruleList string) (*runResult, in
 			res.progInfo["packages"] = len(prog.Pkgs)
 			res.progInfo["module_functions"] = len(prog.Fns)
 			res.progInfo["call_sites"] = prog.nCalls
+			res.progInfo["renamed_roles_resolved_by_fingerprint"] = prog.RoleNotes
 			res.progInfo["fact_summary"] = facts.Summary(prog)
 		}
 		for _, id := range ids {
